@@ -44,6 +44,7 @@ func planC02(c *Ctx) epochPlan {
 }
 
 func runC02(c *Ctx) {
+	shareExecutors() // one executor value per kind for every run of the process (populations of different sizes and options)
 	pl := planC02(c)
 	runEpochPlan(c, pl)
 	finishEpochEvidence(c, "E1 choice-tree exploration of multi-epoch runs on the real Population/Species/executor code: for every scenario (start genome x configuration row x fitness landscape x executor driving x base policy) ALL executions within max_deviations answers of the base policy are run (every random draw is a choice point with a small menu); after construction and after every epoch the C02 predicate is evaluated (no error, exactly PopSize organisms, none from the previous generation, species a partition with agreeing back pointers, no empty species, unique never-reused species ids, unique genome ids, ages +1 / founded at 1 with the first-turnover exception). states = distinct end-state hashes of whole runs, transitions = populations produced (constructions + epochs)")
